@@ -55,30 +55,16 @@ Example lazy_dialect_fixed :
   snd (call F_d5 true 2 (V []) (st_d5_a true) 0 to_dict (Some 1)) = Out (Node 0 to_dict (Some 1) []).
 Proof. vm_compute. reflexivity. Qed.
 
-(* --- known finding C14/lazy-stub-drops-type-args -------------------------------------------------------- *)
-(* K0 generic (lazy), K1(a: K0[int]) lazy: the stub for K0.__mashumaro_to_dict_<md5>__ rebuilds K0.to_dict *)
+(* --- fixed (was: known finding C14/lazy-stub-drops-type-args) ----------------------------------------------------- *)
+(* K0 generic (lazy), K1(a: K0[int]) lazy: the stub for K0.__mashumaro_to_dict_<md5>__ rebuilds that very method *)
 Definition F_spec (lazy: bool) : fam := [CD lazy false [(0, 0)] [] None; CD lazy false [(0, 0)] [FD 0 1 true] None].
 Definition h_spec : list op := [Define 0; Define 1; Call 1 to_dict None (V [(0, V [])])].
 
-Example lazy_specialisation_diverges :
-  nth_error (run (F_spec true) true FUEL st0 h_spec) 2 = Some OOF /\
-  nth_error (run (F_spec false) true FUEL st0 h_spec) 2 =
+Example lazy_specialisation_agrees :
+  run (F_spec true) true FUEL st0 h_spec = run (F_spec false) true FUEL st0 h_spec /\
+  nth_error (run (F_spec true) true FUEL st0 h_spec) 2 =
     Some (Out (Node 1 to_dict None [Node 0 (MN true 0 false 1) None []])).
 Proof. split; vm_compute; reflexivity. Qed.
-
-(* the slot of the specialised method holds a stub for ever: re-dispatching does not change the state *)
-Definition st_spec : state :=
-  fst (dispatch (F_spec true) true 1 (fold_left (fun s o => fst (step (F_spec true) true FUEL s o)) h_spec st0)
-         0 (MN true 0 false 1) None).
-Lemma spec_slot : mro_slot (F_spec true) st_spec 0 (MN true 0 false 1) = Some (Stub 0 (MN true 0 false 1)).
-Proof. vm_compute. reflexivity. Qed.
-Lemma spec_build : build (F_spec true) true (bfuel (F_spec true)) st_spec false 0 (stub_target (MN true 0 false 1)) None = (st_spec, None).
-Proof. vm_compute. reflexivity. Qed.
-Lemma spec_loop : forall fuel, dispatch (F_spec true) true fuel st_spec 0 (MN true 0 false 1) None = (st_spec, DOOF).
-Proof.
-  induction fuel as [|fuel IH]; [reflexivity|].
-  rewrite dispatch_S, spec_slot. cbn [run_cached]. rewrite spec_build. exact IH.
-Qed.
 
 (* --- fixed by 28d8957 (was: known finding C14/dialect-call-before-default-compile) --------------------------- *)
 (* K0 plain, K1(p: K0) with ADD_DIALECT_SUPPORT: lazy K1, FIRST call with a dialect: the nested class is now
